@@ -89,6 +89,20 @@ CLAIMED = {
         note='Trusted: syn parse; i64 checked_* and num-bigint semantics; the book for the rounding mode of mod.',
         technique='static analysis: syntax-tree rules (constructor-site classification, arm-order guards, operator/trait agreement, table agreement with the book)',
         design='2/C14'),
+    'C12': dict(
+        level='other',
+        text='Effect-freedom decided as a capability argument on the resolved call graph: none of the ~1280 bodies reachable from feed_file '
+             '(pest parser, compilation scope, type relations, and the 60 compile-time callbacks of dynamic functions) calls the evaluator, a '
+             'native or a dyn-eval callback, nor has a local of runtime/scope type — the only road to the injected writer, clock and rng. '
+             'Totality is decided partially: every rule-dispatching match covers all alternatives of the grammar choice it dispatches on '
+             '(computed from the pest rule tree), unwrap chains on rule children stay within the guaranteed children, and every explicit '
+             'panic!/unreachable!/unimplemented! of the compile phase is a covered dispatch default or listed with a reason; text-to-number '
+             'conversions are never unwrapped. Determinism: hash-order iteration reaches only order-insensitive sinks; the only process-global '
+             'mutable state is the scope-id counter, used for equality only. NOT decided: termination/complexity of parsing, message contents, '
+             'panics inside library code or implicit (index/arithmetic) panics.',
+        note='Trusted: rustc call resolution; pest produces exactly the pairs its grammar describes; the listed panic reasons (rules/c12.py PANIC_OK) were confirmed by reading.',
+        technique='static analysis: call-graph reachability + type/capability audit on resolved MIR; grammar-tree vs match-arm agreement (pest_meta + syn); panic and hash-order inventories',
+        design='2/C12'),
 }
 
 NA_REASONS = {
